@@ -193,3 +193,30 @@ Section Tables.
         map (fun k => (k, lr)) (emit_sel v (ids_vals v [] (ids_defs sk)) s)) (cross L R))
       (sels sk).
 End Tables.
+
+(* ------------------------------------------------------------------------------------ *)
+(* Shapes read from the source by translators/c01_split.py *)
+Inductive agg := AMin | AMax | AOther.
+Inductive cmpop := OEq | OLe | OGe | OLt | OGt | ONe | OOther.
+(* the two SELECTs of split_df_concat_with_tf_into_two_tables_sqls: (output suffix is _left?,
+   aggregate in the sub-select, filter is `sds = (sub-select)`, no other condition) *)
+Record split_sel := { ss_left : bool; ss_agg : agg; ss_eq_subselect : bool }.
+(* the Python guard of a call site that switches to the two-dataset path:
+   `len(input tables) <op> <n>  and  link_type == "link_only"` *)
+Record split_guard := { sg_op : cmpop; sg_n : nat; sg_link_only : bool }.
+Definition split_sel_ok (s : split_sel) : bool :=
+  ss_eq_subselect s &&
+  match ss_left s, ss_agg s with true, AMin => true | false, AMax => true | _, _ => false end.
+Definition split_ok (sels : list split_sel) : bool :=
+  match sels with
+  | [l; r] => ss_left l && negb (ss_left r) && split_sel_ok l && split_sel_ok r
+  | _ => false
+  end.
+Definition split_guard_ok (g : split_guard) : bool :=
+  match sg_op g with OEq => Nat.eqb (sg_n g) 2 && sg_link_only g | _ => false end.
+(* vertical concatenation: set operator between the per-table SELECTs, whether each SELECT adds
+   the table's name as source_dataset (when the column is not already there), salt column *)
+Record concat_shape := { cs_union_all : bool; cs_sds_literal_each : bool; cs_salt_random : bool;
+                         cs_same_columns_each : bool; cs_one_select_per_table : bool }.
+Definition concat_ok (c : concat_shape) : bool :=
+  cs_union_all c && cs_sds_literal_each c && cs_salt_random c && cs_same_columns_each c && cs_one_select_per_table c.
